@@ -15,7 +15,7 @@ Not decided: replay equivalence on real histories, varint arithmetic.
 from .. import witness
 from ..build import AnalysisBroken
 from ..program import const_val, key, show, strip_casts
-from ..rules import (BAD, argkey, check_automaton, check_guard, find_calls, holds, is_call,
+from ..rules import (fmt_atoms, BAD, argkey, check_automaton, check_guard, find_calls, holds, is_call,
                      must_pass_before_success, one_call, sequences_from, site, CALL)
 from ..paths import xgraph
 
@@ -266,6 +266,25 @@ def check_snapshot(ctx):
                              "a successful snapshot has written the record")
 
 
+def check_edit_numbers(ctx):
+    """ldb_versions_apply fills in the log numbers an edit does not carry and
+    leaves alone the ones it does: the edit that retires a log says so by
+    carrying prev_log_number = 0 / a new log_number."""
+    f = ctx.fn("ldb_versions_apply", "src/version_set.c")
+    g = xgraph(ctx.P, f)
+    for setter, flag, src in (("ldb_edit_set_prev_log_number", "edit->has_prev_log_number", "vset->prev_log_number"),
+                              ("ldb_edit_set_log_number", "edit->has_log_number", "vset->log_number")):
+        cs = [(b, i, e) for (b, i, e) in f.events("call") if is_call(e, setter)]
+        if not cs:
+            ctx.bad("T2-apply-edit-numbers", setter, f.name, f.loc, "%s is no longer called" % setter)
+            continue
+        for b, i, e in cs:
+            atoms = g.must_at(b, i)
+            ctx.check(holds(atoms, ("==", flag, "0")) and argkey(e, 1) == src, "T2-apply-edit-numbers", "%s@%s" % (setter, e["l"].split(":")[1]),
+                      f.name, site(f, e), "%s is filled in from the version set only if the edit does not carry one" % flag.split("has_")[1],
+                      "%s(%s) is reachable although the edit carries its own value; facts %s" % (setter, argkey(e, 1), fmt_atoms(atoms)))
+
+
 def check_current(ctx):
     P = ctx.P
     f = ctx.fn("ldb_set_current_file", "src/filename.c")
@@ -324,6 +343,7 @@ def check_current(ctx):
 
 
 def check(ctx):
+    check_edit_numbers(ctx)
     from . import c14
     c14.check_level_loops(ctx)     # the MANIFEST snapshot covers every level
     witness.run(ctx, "C17")
